@@ -51,6 +51,10 @@ def overlapping(rng, tier):
         if rep == 0:
             ops += [{"op": "listen_busy"}, {"op": "listen"}, {"op": "probe", "sni": "shell.example.org"}]
         cases.append({"depth": rng.randrange(0, 3), "ops": ops})
+    # directed: A up, cache deleted, B up (creates a new cache), both probed; the same with a third run and with a start in between
+    cases.append({"depth": 0, "ops": [{"op": "listen"}, {"op": "probe"}, {"op": "delete"}, {"op": "listen"}, {"op": "probe"}, {"op": "probe", "sni": "localhost"}]})
+    cases.append({"depth": 1, "ops": [{"op": "listen"}, {"op": "delete"}, {"op": "start"}, {"op": "probe"}, {"op": "listen"}, {"op": "probe"},
+                                      {"op": "delete"}, {"op": "listen"}, {"op": "probe", "sni": "c2.example.com"}]})
     return cases
 
 
